@@ -182,6 +182,12 @@ fn run_checked(report: &Report, agg: &Agg, spec: &RunSpec) -> RunResult {
 fn run_checked_any(report: &Report, agg: &Agg, spec: &AnySpec) -> RunResult {
     let r = spec.run();
     absorb(report, agg, spec, &r);
+    if let Some((key, _)) = &r.hang
+        && key.ends_with(scen::PEER_NEVER_TOLD)
+    {
+        report.count("peer_left_to_its_idle_timeout_after_endpoint_shutdown", 1);
+        return r;
+    }
     if let Some((key, what)) = &r.hang {
         agg.reruns.fetch_add(1, Ordering::Relaxed);
         let r2 = spec.run();
@@ -475,6 +481,7 @@ fn main() {
     report.assume("loopback UDP between two sockets of the same process; datagram loss is legal and only counted");
     report.assume("the futures that wait for the drain period (Connection::closed, Endpoint::shutdown) are watched with a deadline that follows the measured round-trip time (5 s + 40 x smoothed rtt); a close run whose rtt estimate exceeds 50 ms (overloaded machine) does not wait for the drain period at all (counter drain_wait_skipped_inflated_rtt); a blocked `write` is pending at the close point only in the small-window rows");
     report.assume("the peer of the closing side learns about the close from a CONNECTION_CLOSE packet over real UDP: its futures are expected to resolve within the watchdog, an expiry that does not reproduce is listed under unreproduced_watchdog_expiries and not reported");
+    report.assume("after Endpoint::close followed by Endpoint::shutdown the closing endpoint stops answering once its drain period is over; a peer that missed the single CONNECTION_CLOSE datagram learns of the close only from its idle timeout (beyond the watchdog): when ONLY the remote side's futures are still pending, none of them would resolve when polled without a wake-up, and the remote connection has no close reason yet, the run is counted (peer_left_to_its_idle_timeout_after_endpoint_shutdown) and not reported");
     report.assume("part D: 'idle' is observed, not owned: the UDP datagram counters (Connection::stats) of both sides unchanged for the settle period (bounded by 3 s, otherwise the run goes on and counts idle_not_reached); on an overloaded machine a delayed acknowledgement may still be outstanding, which can only hide a missing wake-up of the connection worker, never produce a report");
     report.assume("part D: a missing effect is reported only if the watchdog expiry reproduces in a second run; the cause class in the key (not-transmitted: the UDP transmit counter of the acting side did not move after the call / lost-wake-up: a poll without wake-up resolves the future / credit-missing, not-delivered) is diagnosis, the verdict is the expiry; an application datagram that was transmitted but not received is legal loss (counter idle_datagram_lost)");
     report.assume("part D1: quinn-proto announces a raised stream limit only when the increase exceeds 1/8 of the limit; the rows keep limit + waiters below 8 so that every increase is announced at once; whether the n credits of the stream closes arrive in one MAX_STREAMS frame or several is not owned (the oracle does not depend on it; counter burst_closes_read_in_one_turn says how often all n reads completed in the same turn)");
